@@ -65,6 +65,13 @@ pub fn stop(seed: u64) -> Program {
                 ops.push(Op::Thunk { store: 0, eff: EffSpec { id, kind: EffKind::Thunk(fups), panic: false, gate: None, sleep_ms: 0 } });
             } else {
                 let a = g.plain_act(&reds, 10);
+                // sometimes the reducer answers with a thunk (which dispatches follow-ups) or a follow-up action
+                if g.rng.chance(8) {
+                    let id = g.new_eff();
+                    let f = g.plain_act(&reds, 0);
+                    let kind = if g.rng.chance(70) { EffKind::Thunk(vec![f]) } else { EffKind::Action(f) };
+                    g.acts.get_mut(&a).unwrap().red.entry(0).or_default().eff = Some(EffSpec { id, kind, panic: false, gate: None, sleep_ms: 0 });
+                }
                 if stall && g.rng.chance(30) {
                     let ms = g.rng.pick(&[1u32, 100, 2900, 3100, 10_000]);
                     g.acts.get_mut(&a).unwrap().red.entry(0).or_default().sleep_ms = ms;
